@@ -75,7 +75,7 @@ the framework as it stood when the wave was produced):
 
 * **wave 5** (all 17 properties; the sub-agents were additionally given one line per earlier change for
   their property and told to find *different* mechanisms - a deliberately adversarial held-out
-  measurement): 23 of 34 caught at first evaluation, 11 by the property's own check; 10 missed and one
+  measurement): 23 of 34 caught at first evaluation, 12 by the property's own check; 10 missed and one
   (C13-w5m1) ended in a machinery error instead of a verdict. What the misses needed: a single-variant
   enum with a union payload flattened next to other fields (C02); a quoted name ending in `\` inside a
   lone flattened `( .. ) & ( .. )` (C04); a shared file whose extension is not `.ts` (C05 - its clause is
